@@ -76,6 +76,9 @@ type SchedD struct {
 	SharedErr bool `json:"shared_err,omitempty"`
 	// SlowEmit: the Emitter holds its caller for one simulator step per report.
 	SlowEmit bool `json:"slow_emit,omitempty"`
+	// WaitAfterAll: the caller calls Wait only after every job body has ended
+	// (fault-free workloads only: otherwise some bodies never run).
+	WaitAfterAll bool `json:"wait_after_all,omitempty"`
 }
 
 // Desc is the complete, self-describing input of one simulated run.
@@ -133,6 +136,8 @@ func propOf(p string) string {
 		return "C01"
 	case "C19fanin":
 		return "C19"
+	case "C05fanin":
+		return "C05"
 	}
 	return p
 }
@@ -152,6 +157,11 @@ func generateFanIn(rng *rand.Rand, prop string, gomaxprocs int) *Desc {
 	if rng.Intn(2) == 0 {
 		s.Jobs = append(s.Jobs, JobD{Deps: []int{n}}) // and something behind the join
 	}
+	if prop == "C05fanin" {
+		// Wait is only called once everything has run (nothing fails in this workload)
+		s.WaitAfterAll = true
+		s.Emitter = rng.Intn(2) == 0
+	}
 	d.Scheds = []SchedD{s}
 	d.Budget = 40 * (n + 100)
 	d.FairAfter = d.Budget / 2
@@ -160,7 +170,7 @@ func generateFanIn(rng *rand.Rand, prop string, gomaxprocs int) *Desc {
 
 // Generate draws a run descriptor for the given property's population.
 func Generate(rng *rand.Rand, prop, tier string, gomaxprocs int) *Desc {
-	if prop == "C01fanin" || prop == "C19fanin" {
+	if prop == "C01fanin" || prop == "C19fanin" || prop == "C05fanin" {
 		return generateFanIn(rng, prop, gomaxprocs)
 	}
 	d := &Desc{Engine: "l1", Prop: prop, GOMAXPROCS: gomaxprocs}
@@ -460,6 +470,16 @@ func (d *Desc) Valid() bool {
 	for i := range d.Scheds {
 		s := &d.Scheds[i]
 		// a job held until the caller has returned needs something that makes Wait return without it
+		if s.WaitAfterAll {
+			for _, jd := range s.Jobs {
+				if jd.Out != OutOK || jd.Ctx == CtxOwnDead || jd.Ctx == CtxOwnCancelledBy || jd.Cancel {
+					return false
+				}
+			}
+			if s.CancelMode != CancelNone {
+				return false
+			}
+		}
 		if !s.waitWillBeCancelled() {
 			for _, jd := range s.Jobs {
 				if jd.Stuck {
